@@ -142,9 +142,11 @@ def setter_constant(tree, path):
         for st in ast.walk(fn):
             if isinstance(st, ast.Assign) and len(st.targets) == 1 and isinstance(st.targets[0], ast.Attribute) \
                     and st.targets[0].attr == other:
+                if isinstance(st.value, ast.Constant) and st.value.value is None:
+                    continue            # the `= None` branch of the None path (commit e4a0461)
                 hits.append(st)
         if len(hits) != 1:
-            raise Untranslatable(f"{fn.name} setter: expected exactly one assignment to self.{other}, got {len(hits)}")
+            raise Untranslatable(f"{fn.name} setter: expected exactly one non-None assignment to self.{other}, got {len(hits)}")
         v = hits[0].value
         want = ast.Mult if fn.name == "magnetization" else ast.Div
         if not (isinstance(v, ast.BinOp) and isinstance(v.op, want) and isinstance(v.left, ast.Attribute)
